@@ -200,7 +200,20 @@ def gen_output_card(rng):
     return {"theory": th, "obs": ob, "observables": obs}
 
 
-def gen_io_faults(rng, opkind, enabled, rate):
+def gen_io_faults(rng, opkind, enabled, rate, max_faults=1):
+    out = []
+    for _ in range(max_faults):
+        out.extend(_gen_io_fault(rng, opkind, enabled, rate if not out else 0.35))
+    # at most one decision per (site, call)
+    seen, uniq = set(), []
+    for f in out:
+        if (f["site"], f["call"]) not in seen:
+            seen.add((f["site"], f["call"]))
+            uniq.append(f)
+    return uniq
+
+
+def _gen_io_fault(rng, opkind, enabled, rate):
     out = []
     if not enabled or rng.random() >= rate:
         return out
@@ -233,7 +246,7 @@ def gen_io_faults(rng, opkind, enabled, rate):
     return out
 
 
-def generate(run_seed, fault_config="all", jit=False, max_ops=12, meta=None):
+def generate(run_seed, fault_config="all", jit=False, max_ops=12, max_faults=1, meta=None):
     st = Streams(run_seed)
     cfg, ops_rng, frng = st["config"], st["ops"], st["faults"]
     nout = cards.wchoice(cfg, [(1, 4), (2, 3), (3, 1)])
@@ -307,14 +320,14 @@ def generate(run_seed, fault_config="all", jit=False, max_ops=12, meta=None):
             files[q] = files.pop(p)
         elif kind == "scribble":
             op["handle"] = ops_rng.choice(sorted(live))
-            op["what"] = ops_rng.choice(["values", "meta", "cards", "kin"])
+            op["what"] = ops_rng.choice(["values", "meta", "cards", "kin", "specials", "specials"])
         elif kind == "set_none":
             op["handle"] = ops_rng.choice(sorted(live))
             op["which"] = ops_rng.randrange(4)
         elif kind == "crash_restart":
             live = {}
             streams = []
-        op["faults"] = gen_io_faults(frng, op["op"], enabled, rate) if op["op"] in DUMPS + LOADS else []
+        op["faults"] = gen_io_faults(frng, op["op"], enabled, rate, max_faults) if op["op"] in DUMPS + LOADS else []
         ops.append(op)
     # bounded liveness: once faults stop, dump-then-load of a live object on every used path works
     if live and ops_rng.random() < 0.7:
@@ -728,6 +741,28 @@ def _scribble(out, what):
                             ve[0][...] = 3.25
                         except Exception:  # noqa: BLE001
                             r.orders[o] = (np.full_like(np.asarray(ve[0]), 3.25), ve[1])
+    elif what == "specials":
+        # values a runner output can contain and a serialiser may mangle: signed zero, subnormals, the
+        # largest finite double, tiny negative numbers, and the non-finite values heavy N3LO terms carry
+        # in this very environment (the shipped grids contain NaN)
+        specials = [-0.0, 5e-324, 1.7976931348623157e308, -1e-310, float("nan"), float("inf"), float("-inf"),
+                    1e-300, -2.2250738585072014e-308, 0.1 + 0.2, 1e16, 123456789012345678.0]
+        k = 0
+        for name in sorted(x for x in out.keys() if _is_obs(x)):
+            v = out[name]
+            if not v:
+                continue
+            for r in v:
+                for o in list(r.orders):
+                    ve = r.orders[o]
+                    for arr in (ve[0], ve[1]):
+                        try:
+                            flat = np.asarray(arr).reshape(-1)
+                            for j in range(min(3, flat.size)):
+                                flat[(7 * k + 3 * j) % flat.size] = specials[k % len(specials)]
+                                k += 1
+                        except Exception:  # noqa: BLE001
+                            pass
     elif what == "meta":
         try:
             g = out["xgrid"]["grid"]
